@@ -117,9 +117,16 @@ def check(F, rep, tier):
         tab = {k: {x for x in v if isinstance(x, str)} for k, v in tab.items() if k is not None}
         tab = {k: v for k, v in tab.items() if v}
         target = "-"
-        rep.floor("R17.2", "pattern arms in resolve_timestamp", len([k for k in tab if k]), 16)
+        # a name -> format table kept as data (a const slice of pairs searched with find / position / get) is not read by this rule:
+        # the patterns it cannot see are NOT-DECIDED, not "unhandled" (7.1 policy: a violation is a positively identified construct)
+        lookup = sorted({(mir.callee(t) or "").rsplit("::", 1)[-1] for g_ in scope + [c_ for g2 in scope for c_ in mir.closures_in(F, g2)] for bi, t in g_.calls()
+                         if (mir.callee(t) or "").rsplit("::", 1)[-1] in ("find", "find_map", "position", "binary_search_by", "binary_search_by_key") or (mir.callee(t) or "").endswith("Map<K, V, S>::get") or "phf" in (mir.callee(t) or "")})
+        as_data = len([k for k in tab if k]) < 16 and bool(lookup)
+        if as_data: rep.undecided("R17.2", "pattern-table-as-data", "resolve_timestamp finds the format of a pattern name by a table lookup (%s): the name -> format pairs kept as data are not evaluated" % lookup, rt.where())
+        else: rep.floor("R17.2", "pattern arms in resolve_timestamp", len([k for k in tab if k]), 16)
         for p in DOCUMENTED:
             fm = tab.get(p)
+            if not fm and as_data: continue
             if not fm:
                 rep.bad("R17.2", "pattern-unhandled:" + p, "documented pattern %s has no arm in resolve_timestamp (it would be copied literally)" % p, rt.where()); continue
             if len(fm) != 1:
